@@ -4,7 +4,7 @@ Histories within one process over {new(variant), value, task force, fail(task, k
 about one process); after every step, for every task that has a stored result, run info and log must be exactly the
 records of the run (generation) that produced that stored result; after every successful run they must be that run's.
 """
-from tcv import families, histories, specs
+from tcv import families, histories, specs, worlds
 from tcv.core import Result, Violation
 
 P, bc = families.P, families.by_class
@@ -15,6 +15,14 @@ def rec_world():
     d['name'] = 'rec3'
     d['tasks']['A']['params'] = [P('pa'), P('ign', default=0, ignore=True), P('pth', default='/x/{V}', dtype='Path')]
     d['global_vars'] = {'V': 'subst'}
+    d['variants'] = {'v0': [], 'v1': [[['configs', 'root', 'values', 'pa'], 2]]}
+    return d
+
+
+def genrec_world():
+    """results produced by generator bodies (consumed by the library after run() has returned) and a directory result"""
+    d = families.chain3(kinds=('generator', 'generator_lazy', 'dir'))
+    d['name'] = 'genrec'
     d['variants'] = {'v0': [], 'v1': [[['configs', 'root', 'values', 'pa'], 2]]}
     return d
 
@@ -33,7 +41,15 @@ def nestlog_world():
     }
 
 
-WORLDS = {'rec3': rec_world, 'mount2': families.mount2, 'chain3': families.chain3, 'nestlog': nestlog_world}
+def _rich(f):
+    def g():
+        d = f()
+        d['_rich_records'] = True   # records whose length differs between runs, a message logged from a helper thread of run()
+        return d
+    return g
+
+
+WORLDS = {'rec3': _rich(rec_world), 'mount2': _rich(families.mount2), 'chain3': _rich(families.chain3), 'nestlog': _rich(nestlog_world), 'genrec': _rich(genrec_world)}
 
 
 def expected_records(m, fn, gen):
@@ -44,8 +60,8 @@ def expected_records(m, fn, gen):
         'input_tasks': {t: m.key(t) for t in ti.input_names},
         'namespace': ti.ns,
         'config': m.config_name(ti.mount[1]),
-        'log': [{'tcv': ti.key, 'gen': gen, 'seq': 0}, {'tcv': ti.key, 'gen': gen, 'seq': 1}],
-        'messages': [f'tcv {ti.key} gen{gen} begin', f'tcv {ti.key} gen{gen} end'],
+        'log': [{'tcv': ti.key, 'gen': gen, 'seq': 0, 'pad': worlds.rich_pad(gen)}, {'tcv': ti.key, 'gen': gen, 'seq': 1}],
+        'messages': [f'tcv {ti.key} gen{gen} begin', f'tcv {ti.key} gen{gen} helper', f'tcv {ti.key} gen{gen} end'],
     }
 
 
@@ -80,7 +96,8 @@ def compare(rec, exp, check_log=True):
     elif log is None:
         out.append(('log missing', 'no log file'))
     else:
-        ok = (len(log) == 4 and log[0].endswith(f'run started with params: {_params_line(exp)}') and log[1:3] == exp['messages'] and log[3].endswith('run ended'))
+        n = len(exp['messages'])
+        ok = (len(log) == n + 2 and log[0].endswith(f'run started with params: {_params_line(exp)}') and log[1:n + 1] == exp['messages'] and log[n + 1].endswith('run ended'))
         if not ok:
             out.append(('log is not the log of the producing run', f'{log} vs [started, {exp["messages"]}, ended]'))
     return out
@@ -148,12 +165,14 @@ def silent_rerun():
             obs, exp = ex.step(['value', 0, 'a'])
         finally:
             logging.disable(logging.NOTSET)
+        if 'error' in obs['records']['a']:
+            return [('records unreadable', obs['records']['a']['error'])]
         log = obs['records']['a']['log'] or []
         old = [l for l in log if 'gen0' in l]
         if old:
             out.append(('log of the latest run holds lines of an earlier run', f'recomputation (generation 1) with logging disabled: log still shows {log}'))
         ri = obs['records']['a']['run_info'] or {}
-        if ri.get('log') != [{'tcv': 'A', 'gen': 1, 'seq': 0}, {'tcv': 'A', 'gen': 1, 'seq': 1}]:
+        if ri.get('log') != [{'tcv': 'A', 'gen': 1, 'seq': 0, 'pad': worlds.rich_pad(1)}, {'tcv': 'A', 'gen': 1, 'seq': 1}]:
             out.append(('run info records are not those of the producing run', f'{ri.get("log")}'))
     finally:
         ex.close()
@@ -162,7 +181,7 @@ def silent_rerun():
 
 def plan(tier):
     out = []
-    for name in (['rec3', 'mount2', 'nestlog'] if tier == 'quick' else ['rec3', 'mount2', 'chain3', 'nestlog']):
+    for name in (['rec3', 'mount2', 'nestlog', 'genrec'] if tier == 'quick' else ['rec3', 'mount2', 'chain3', 'nestlog', 'genrec']):
         desc = WORLDS[name]()
         keys = list(desc['tasks'])
         faults = [(keys[0], 'raise'), (keys[0], 'raise_late'), (keys[-1], 'raise'), (keys[0], 'wrong_type')]
